@@ -49,12 +49,14 @@ Definition judge_init (q : cquirks) (preset : string) (E : list string)
   end.
 
 (* result: [specification bits per step of the observed trace; [ideal model trace meets the specification];
-            [observed trace = model c trace, per candidate]] *)
+            [observed trace = model c trace, per candidate]; [every set text is in conv_domain]] *)
 Definition judge_hist (q : cquirks) (explicit : bool) (f0 : option cfg) (cs : list cmd) (os : list obs) : list (list bool) :=
   let same (c : cquirks) := list_eqb obs_eqb os (run c explicit f0 cs) in
   [ spec_trace [] f0 cs os;
     [all_true (spec_trace [] f0 cs (run ideal explicit f0 cs))];
-    map same (hist_candidates q) ].
+    map same (hist_candidates q);
+    (* are all texts in the domain on which the model predicts int()/float()? *)
+    [forallb (fun c => match c with CSet _ t => conv_domain t | _ => true end) cs] ].
 
 Definition judge_conv (t : string) (v : cval) : list bool := [conv_domain t; cval_eqb (convert t) v].
 
